@@ -33,7 +33,7 @@ def make_config(prop, rng, tier):
     cfg = {"prop": prop, "tier": tier}
     if prop == "C05":
         cfg.update({
-            "cls": rng.choice(["monoidal", "monoidal", "rigid", "tensor", "circuit", "zx"]),
+            "cls": rng.choice(["monoidal", "monoidal", "rigid", "tensor", "circuit", "zx", "cartesian"]),
             "max_steps": rng.choice([20, 40, 60]),
             "nboxes": rng.randint(0, 9), "maxw": rng.choice([3, 4, 5, 6]),
             "atoms": rng.randint(1, 3),
@@ -191,7 +191,13 @@ class World(BaseWorld):
         s = self.slots.get(op["src"])
         if s is None:
             return "skipped"
-        got = s["real"][::-1]
+        try:
+            got = s["real"][::-1]
+        except Exception as err:
+            # e.g. cartesian boxes have no dagger (TypeError): an exception, not a value - the
+            # walker simply stays where it is (DESIGN 13.2, observations)
+            self.note("dagger_raised_" + type(err).__name__)
+            return "raised"
         B.require_well_typed(got, "%s.ill-typed" % self.prop, "dagger")
         self.store(op["dst"], got, M.model_of(got), op["dst"])
         return "ok"
@@ -367,6 +373,16 @@ class World(BaseWorld):
         t["seen"].add(gm)
         t["prev"], t["last"] = gm, got
         self.states.add(h64(gm))
+        # steps already handed out stay what they were while the generator moves on
+        kept = t.setdefault("kept", [])
+        for k, (old_real, old_model) in enumerate(kept):
+            if M.model_of(old_real) != old_model or B.public_scan_problem(old_real):
+                raise self.vio("step-changed-later", "a step yielded earlier by %s (%d steps before %s) is no "
+                               "longer the diagram it was when it was yielded" % (t["kind"], len(kept) - k, what))
+        kept.append((got, gm))
+        if len(kept) > 6:
+            del kept[2]          # keep the first two and the most recent ones
+        self.note("kept_steps_rechecked", len(kept) - 1)
 
     def op_task_close(self, op):
         t = self.tasks.get(op["task"])
@@ -694,7 +710,7 @@ class Driver:
             names = ("2", "3")[:max(1, min(2, cfg["atoms"]))]
         elif real_cls == "circuit":
             names = ("qubit", "bit")[:max(1, min(2, cfg["atoms"]))]
-        elif real_cls == "zx":
+        elif real_cls in ("zx", "cartesian"):
             names = ("1",)
         nboxes = cfg["nboxes"]
         return B.gen_monoidal(rng, nboxes, real_cls, names, cfg["maxw"],
